@@ -1749,6 +1749,14 @@ int32 matrixCreateSessionTicket(ssl_t *ssl, unsigned char *out, int32 *outLen)
     psLockMutex(&g_sessTicketLock);
     /* Ticket itself */
     keys = ssl->keys->sessTickets;
+    if (keys == NULL)
+    {
+        /* The ticket was promised when the ClientHello was parsed; since
+           then another thread has deleted the last key of the key set */
+        psTraceErrr("No session ticket key left to issue the ticket\n");
+        rc = PS_FAILURE;
+        goto ERR_LOCKED;
+    }
     /* name */
     Memcpy(c, keys->name, 16);
     c += 16;
